@@ -84,3 +84,115 @@ package ompt
 //@   requires i != nil
 //@   ensures [latched] old(i.error) != nil ==> err != nil && i.error == old(i.error)
 //@   loop 0: invariant true
+
+// ---------------------------------------------------------------------------
+// C18: proof verification: a value is returned only for exactly the key asked for, and an unverified
+// node never replaces a hash node
+// ---------------------------------------------------------------------------
+//@ property C18
+//@ smt all (declare-fun node_hash (BSeq) BSeq)
+//@ func calcHash(data) (h)
+//@   trusted
+//@   pure
+//@   ensures len(data) == 1 ==> seq(h) == node_hash(seq(data[0]))
+
+// the read/write lock helper only touches its own state word (sequential view: what other
+// goroutines do while Migrate trades the read lock for the write lock is outside this check)
+//@ func RLock(l) (r)
+//@   arith int
+//@   pure
+//@   requires l != nil
+//@ func (l *AutoRWUnlock) Migrate()
+//@   arith int
+//@   requires l != nil
+//@   modifies l.state
+//@ func (l *AutoRWUnlock) Unlock()
+//@   arith int
+//@   requires l != nil
+//@   modifies l.state
+
+// compareKeys: length of the common prefix, and whether the two nibble strings are equal
+//@ func compareKeys(k1, k2) (cnt, match)
+//@   arith int
+//@   pure
+//@   ensures [prefix] 0 <= cnt && cnt <= len(k1) && cnt <= len(k2) && (forall i int :: {k1[i]} 0 <= i && i < cnt ==> k1[i] == k2[i])
+//@   ensures [match] match <==> len(k1) == len(k2) && cnt == len(k1)
+//@   ensures [first_diff] cnt < len(k1) && cnt < len(k2) ==> k1[cnt] != k2[cnt]
+//@   loop 0: invariant 0 <= i && i <= klen && (forall j int :: {k1[j]} 0 <= j && j < i ==> k1[j] == k2[j])
+
+// a leaf yields its value only for exactly its own remaining key (not for a longer key it prefixes)
+//@ func (n *leaf) prove(m, keys, proof) (nn, obj, err)
+//@   arith int
+//@   nosafety
+//@   modifies *
+//@   opt no-callee-pre
+//@   opt inline-none
+//@   opt protect n.keys, n.keys[*], keys[*]
+//@   requires n != nil
+//@   ensures [exact_key] err == nil ==> len(keys) == len(n.keys) && (forall i int :: {keys[i]} 0 <= i && i < len(keys) ==> keys[i] == n.keys[i])
+//@   ensures [same_node] typeof(nn) == typeid(ptr_leaf) && as(ptr_leaf, nn) == n
+
+// a hash node is replaced only by the node deserialized from bytes that hash to it; a proof that
+// does not match leaves the hash node in place
+//@ func (h *hash) prove(m, kb, items) (nn, obj, err)
+//@   arith int
+//@   nosafety
+//@   modifies *
+//@   opt no-callee-pre
+//@   opt inline-none
+//@   opt protect h.value, h.value[*], items[*]
+//@   requires h != nil
+//@   callpre deserialize: seq(caller_h.value) == node_hash(seq(serialized)) && serialized == items[0]
+//@   ensures [mismatch_err] len(items) < 1 || old(seq(h.value)) != node_hash(old(seq(items[0]))) ==> err != nil
+//@   ensures [mismatch_keeps] len(items) < 1 || old(seq(h.value)) != node_hash(old(seq(items[0]))) ==> typeof(nn) == typeid(ptr_hash) && as(ptr_hash, nn) == h
+
+// node interface: proof walking recurses through it (the recursion is trusted at the call, each
+// implementation is checked for what it passes on)
+//@ func (n node) prove(m, keys, proof) (nn, obj, err)
+//@   iface
+//@   trusted
+//@   modifies *
+//@ func (n node) getProof(m, keys, proofs) (nn, proof, err)
+//@   iface
+//@   trusted
+//@   modifies *
+
+// an extension passes on exactly the key behind its own nibbles, and only when the key starts with them
+//@ func (n *extension) prove(m, keys, proof) (nn, obj, err)
+//@   arith int
+//@   nosafety
+//@   modifies *
+//@   opt no-callee-pre
+//@   opt inline-none
+//@   opt protect n.keys, n.keys[*], n.next, n.hashValue, n.serialized
+//@   requires n != nil && n.next != nil
+//@   callpre prove: n == caller_n.next && ref(keys) == ref(caller_keys) && off(keys) == off(caller_keys) + len(caller_n.keys) && len(keys) == len(caller_keys) - len(caller_n.keys) && (forall i int :: {caller_keys[i]} 0 <= i && i < len(caller_n.keys) ==> caller_keys[i] == caller_n.keys[i])
+//@   callpre prove: caller_n.hashValue != nil ==> ref(proof) == ref(old(caller_proof)) && off(proof) == off(old(caller_proof)) + 1 && len(proof) == len(old(caller_proof)) - 1 && old(seq(caller_proof[0])) == seq(caller_n.serialized)
+
+// a branch hands the rest of the key to the child selected by the first nibble and answers with its
+// own value only when the key is exhausted; a hashed branch consumes one proof element equal to its
+// serialized form. When building a proof it emits its serialized form exactly when it is referenced
+// by hash (which is what the verifier expects)
+//@ func (n *branch) prove(m, keys, proof) (nn, obj, err)
+//@   arith int
+//@   nosafety
+//@   modifies *
+//@   opt no-callee-pre
+//@   opt inline-none
+//@   opt protect n.hashValue, n.serialized, n.children, keys[*]
+//@   requires n != nil
+//@   callpre prove: len(caller_keys) > 0 && n == caller_n.children[caller_keys[0]] && ref(keys) == ref(caller_keys) && off(keys) == off(caller_keys) + 1 && len(keys) == len(caller_keys) - 1
+//@   callpre prove: caller_n.hashValue != nil ==> ref(proof) == ref(old(caller_proof)) && off(proof) == off(old(caller_proof)) + 1 && len(proof) == len(old(caller_proof)) - 1
+//@   callpre prove: caller_n.hashValue != nil ==> seq(old(caller_proof)[0]) == seq(caller_n.serialized)
+//@   callpre prove: caller_n.hashValue == nil ==> proof == old(caller_proof)
+//@ func (n *branch) getProof(m, keys, proofs) (nn, proof, err)
+//@   arith int
+//@   nosafety
+//@   modifies *
+//@   opt no-callee-pre
+//@   opt inline-none
+//@   opt protect n.hashValue, n.serialized, n.children, n.state, keys[*]
+//@   requires n != nil
+//@   ensures [emits_when_hashed] err == nil && len(keys) == 0 && n.hashValue != nil ==> len(proof) == len(proofs) + 1 && proof[len(proofs)] == n.serialized
+//@   ensures [embedded_adds_nothing] err == nil && len(keys) == 0 && n.hashValue == nil ==> len(proof) == len(proofs)
+//@   callpre getProof: len(caller_keys) > 0 && n == caller_n.children[caller_keys[0]] && (caller_n.hashValue != nil ==> len(proofs) == len(old(caller_proofs)) + 1 && proofs[len(old(caller_proofs))] == caller_n.serialized) && (caller_n.hashValue == nil ==> proofs == old(caller_proofs))
